@@ -237,3 +237,9 @@ func TestC11Big(t *testing.T) {
 	defer st.Flush()
 	rapid.Check(t, c11Prop(st, FamBig))
 }
+
+func TestC11Aligned(t *testing.T) {
+	st := NewStats("C11Aligned", c11Rule)
+	defer st.Flush()
+	rapid.Check(t, c11Prop(st, FamAligned))
+}
